@@ -195,3 +195,75 @@ PROPS['C03'] = dict(
     explanation='C03 is lemma L3 over FRAME contracts: an admission that fits evicts nothing (Verus, unbounded), the sweep removes only entries whose expiry has passed, '
                 'CacheWeight::delete of an unknown id is the identity, every Store writer touches only its own key.',
 )
+
+API_ASSUME = ['T6: a ghost (erased) World parameter is threaded through the API methods and their calls into Store / CommandExecutor / AdmissionPolicy / TTLTicker / id generator / pool',
+              'T4: CacheD and Config are re-declared with stand-in field types; T10: (self.config.f)(args) is written self.config.f.verif_call(args); the client weight / hash functions are arbitrary total functions',
+              'collaborator contracts are ASSUMED in the Verus unit and checked on the real code by the Kani harnesses named beside them (bounded N where they touch a map)',
+              'CommandExecutor::send queues exactly the given command or returns an error (crossbeam channel semantics are not verified)',
+              'the clock reading is fixed during one API call']
+STORE_Q = ['store/get_n2', 'store/get_ref_n2', 'store/is_present_n2', 'store/put_n2', 'store/put_with_ttl_n2', 'store/delete_n2', 'store/mark_deleted_n2', 'store/update_n2']
+STORE_T = ['store/get_n3', 'store/get_ref_n3', 'store/put_n3', 'store/delete_n3', 'store/mark_deleted_n3', 'store/update_n3']
+
+PROPS['C02'] = dict(
+    level='proof', title='Reads return only the current value of the key, never stale or foreign',
+    verus=['api'], verus_only={'api': [r'CacheD::get$', r'CacheD::get_ref$', r'CacheD::map_get$', r'CacheD::map_get_ref$', r'MultiGetIterator::next', r'CacheD::mark_key_accessed', r'CacheD::is_shutting_down']},
+    kani={'quick': STORE_Q + ['sv/is_alive_matches_spec'], 'thorough': STORE_T},
+    kani_meta=BND(STORE_Q + STORE_T),
+    bounded_note='Store triples from an arbitrary store with at most N entries (2 quick, 3 thorough): each reader returns exactly the entry of ITS key when alive; each writer changes only its own key (whole-view frame)',
+    floor={'quick': 16, 'thorough': 22},
+    assumptions=[CONC] + API_ASSUME + ['DashMap is a linearizable map and the value is cloned under the shard guard (stand-in)'],
+    not_covered=['multi_get (an iterator-adapter chain over get) and MultiGetMapIterator::next (Option::map with a closure) are outside the Verus subset and not checked',
+                 'overlap of a read with a concurrent write'],
+    explanation='Verus: every read entry point returns None when shutting down and otherwise exactly the Store answer for that key (map variants: map_fn applied to it). '
+                'Kani: Store::get/get_ref return Some(v) iff the entry of that key exists, is alive and v is its value; no writer touches another key.',
+)
+PROPS['C07'] = dict(
+    level='proof', title="put never overwrites; 'key already exists' only for keys that can be read",
+    verus=['api'], verus_only={'api': [r'CacheD::put$', r'CacheD::put_with_weight$', r'CacheD::put_with_ttl$', r'CacheD::put_with_weight_and_ttl$', r'CacheD::key_description', r'CacheD::is_shutting_down']},
+    kani={'quick': ['store/is_present_n2', 'store/expired_put_region_cover_n2', 'store/get_n2', 'store/delete_n2', 'ack/constructors_satisfy_j', 'idgen/ids_strictly_increase'], 'thorough': []},
+    kani_meta=dict(BND(['store/is_present_n2', 'store/get_n2', 'store/delete_n2']), **{'store/expired_put_region_cover_n2': dict(region_cover='F-C07-expired-put')}),
+    bounded_note='Store::is_present / get / delete triples with at most 2 entries',
+    floor={'quick': 11, 'thorough': 11},
+    assumptions=[CONC] + API_ASSUME,
+    not_covered=['an expired-but-unswept key is refused as existing: known finding F-C07-expired-put'],
+    explanation='Verus (all four variants): existing key => answered Rejected(KeyAlreadyExists) on the spot, nothing queued, nothing changed; otherwise exactly one Put/PutWithTTL with the given key, value, weight, ttl and a fresh id. '
+                'Kani: is_present is physical presence; present, not soft-deleted and not expired => readable.',
+)
+PROPS['C08'] = dict(
+    level='proof', title='put_or_update changes exactly what was requested, or acts as put',
+    verus=['api'], verus_only={'api': [r'CacheD::put_or_update', r'CacheD::key_description', r'CacheD::is_shutting_down']},
+    verus_probes={'F-C17-ttl-remove-weight': dict(unit='api', drop_line='!ttl_remove_region(old(verif_w), request),', fn=r'put_or_update')},
+    kani={'quick': ['sv/update_changes_exactly_what_was_requested', 'store/type_of_expiry_update_table', 'pou/updated_weight_table', 'pou/builder_copies_fields',
+                    'wc/default_weight_is_positive_and_ttl_adds_the_ticker_entry', 'store/update_n2', 'store/dead_upsert_region_cover_n2'], 'thorough': ['store/update_n3']},
+    kani_meta=dict(BND(['store/update_n2', 'store/update_n3']), **{'store/dead_upsert_region_cover_n2': dict(region_cover='F-C08-dead-upsert')}),
+    bounded_note='Store::update triple with at most N entries',
+    floor={'quick': 10, 'thorough': 11},
+    assumptions=[CONC] + API_ASSUME + ['T7: the two closures of put_or_update are annotated with their result (existing_weight +/- 24)', 'charged weights are at most i64::MAX - 24'],
+    not_covered=['an upsert applied to an expired-unswept or soft-deleted entry: known finding F-C08-dead-upsert', 'removing the ttl of a key charged <= 24: known finding F-C17-ttl-remove-weight'],
+    explanation='Verus: for a held key exactly the requested fields of its entry change before the call returns, the expiry index follows the four-way classification, and the weight sent is the explicit one, '
+                'else the recomputed one, else existing +/- the ticker entry; for a key that is not held exactly the corresponding put is queued. Kani (complete): StoredValue::update, the classification table, updated_weight, the builder.',
+)
+PROPS['C13'] = dict(
+    level='proof', title='Shutdown refuses new work, answers every pending command, never blocks',
+    verus=['api'], verus_only={'api': [r'CacheD::']},
+    kani={'quick': [], 'thorough': []},
+    floor={'quick': 15, 'thorough': 15},
+    assumptions=[CONC] + API_ASSUME,
+    not_covered=['"every pending acknowledgement completes" and "shutdown() never blocks" are queue / schedule properties and are NOT decided here',
+                 'multi_get (iterator chain) is not checked'],
+    explanation='FIRST SENTENCE ONLY. Verus: every entry point (4 puts, put_or_update, delete, get, get_ref, map_get, map_get_ref, the multi-get iterator) returns Err(shutdown) / None once the flag is set and touches nothing; '
+                'shutdown() sets the flag, and a repeated call is a no-op.',
+)
+PROPS['C04'] = dict(
+    level='proof', title='Delete hides the key immediately and releases it completely',
+    verus=['api'], verus_only={'api': [r'CacheD::delete$', r'CacheD::is_shutting_down']},
+    kani={'quick': ['store/mark_deleted_n2', 'store/delete_n2', 'cw/delete_n2', 'ttl/delete_n2_s2', 'ttl/delete_unknown_n2_s2'], 'thorough': ['store/mark_deleted_n3', 'store/delete_n3', 'cw/delete_n3']},
+    kani_meta=BND(['store/mark_deleted_n2', 'store/delete_n2', 'cw/delete_n2', 'ttl/delete_n2_s2', 'ttl/delete_unknown_n2_s2', 'store/mark_deleted_n3', 'store/delete_n3', 'cw/delete_n3']),
+    harness_timeout='1500s', kani_timeout=3400,
+    bounded_note='mark_deleted / Store::delete / CacheWeight::delete / TTLTicker::delete triples with at most N entries',
+    floor={'quick': 7, 'thorough': 10},
+    assumptions=[CONC] + API_ASSUME,
+    not_covered=['a read racing mark_deleted'],
+    explanation='Verus: CacheD::delete marks the entry before it returns (no read returns it afterwards, every other entry untouched) and queues exactly one Delete. '
+                'Kani: the three deletions the worker performs remove exactly that key / id / expiry entry and are the identity for unknown ones.',
+)
